@@ -599,7 +599,27 @@ def c15e(chk):
     chk.ob("C15.e", "Header::write/newline-on-every-path", ok, w.loc(), "the header's terminating newline is written on every successful path (newline stores at %s)" % [w.loc(b) for b in nl])
 
 
+def npy_rejection_reasons(chk, rule):
+    """a numpy-laid-out file is refused for four reasons of its own (magic, version, Fortran order, value count) besides what the dict parser
+    and the byte reads report: every further `io::Error::new(.., "literal")` in the npy module is a new reason to refuse a file"""
+    prog = chk.prog
+    lits = []
+    for g in prog.fn_list:
+        if g.derived or not g.path.startswith("sfs_core::array::npy"):
+            continue
+        for b, t in g.calls():
+            nm = callee_name(t["callee"])
+            if nm.endswith("io::error::Error::new") or nm.endswith("io::error::Error::other"):
+                msg = [an.const_str_of(g, a) for a in t["args"]]
+                msg = [m for m in msg if isinstance(m, str)]
+                if msg:
+                    lits.append((msg[0], g.loc(b)))
+    chk.ob(rule, "npy-reader/own-rejection-reasons<=4", 1 <= len(lits) <= 4, "",
+           "literal-message errors constructed in array::npy: %s (reviewed: bad magic, unknown version, Fortran order, value count != product of shape)" % lits)
+
+
 def c15f(chk):
+    npy_rejection_reasons(chk, "C15.f")
     f = chk.fn(READ_ARRAY)
     if f is None:
         return
@@ -919,6 +939,25 @@ def c07c(chk):
             # one site for all values: a loop over the whole slice that formats its element on every turn (the separator goes in between)
             ok = _single_format_site_covers_all(prog, fsn, fcs[0][0])
     chk.ob("C07.c", "text-values/printed-with-requested-precision", ok, fsn.loc() if fsn else "", "every value is printed as `{x:.precision$}` with nothing around it (first and following values alike)")
+    # ... and it is the stored value that is printed: the formatter computes nothing on f64 (no rounding, clamping, flushing to zero, rescaling)
+    if fsn is not None:
+        comp = []
+        for g_ in [fsn] + prog.closures_of(fsn.path):
+            for b_, i_, p_, rv_, s_ in g_.assigns():
+                if rv_["k"] == "binop" and ("f64" in (rv_.get("lty") or "") or "f64" in (rv_.get("rty") or "") or "f32" in (rv_.get("lty") or "")):
+                    comp.append("%s at %s" % (rv_["op"], g_.loc(b_)))
+                if rv_["k"] == "unop" and "f64" in (rv_.get("ty") or g_.local_ty(p_[0]) or "") and rv_["op"] == "Neg":
+                    comp.append("Neg at %s" % g_.loc(b_))
+                if rv_["k"] == "cast" and (("f64" in (rv_.get("from") or "")) != ("f64" in (rv_.get("ty") or ""))):
+                    comp.append("cast %s->%s at %s" % (rv_.get("from"), rv_.get("ty"), g_.loc(b_)))
+                if rv_["k"] == "use" and isinstance(const_val(rv_["op"]), dict) and "f" in const_val(rv_["op"]):
+                    comp.append("float literal %s at %s" % (const_val(rv_["op"])["f"], g_.loc(b_)))
+            for b_, t_ in g_.calls():
+                nm_ = callee_name(t_["callee"])
+                if nm_.startswith(("std::f64::<impl f64>::", "core::f64::<impl f64>::", "core::num::<impl f64>::")):
+                    comp.append("%s at %s" % (nm_.split("::")[-1], g_.loc(b_)))
+        chk.ob("C07.c", "text-values/printed-as-stored(no-float-computation-in-the-formatter)", not comp, fsn.loc(),
+               "between the stored f64 and `{x:.precision$}` nothing is computed on it (found: %s)" % (comp or "nothing"))
 
 
 def _single_format_site_covers_all(prog, f, fmt_bb):
@@ -1607,6 +1646,24 @@ def _is_ok_payload_of(f, local, call_dest):
     return False
 
 
+def one_record_per_call(chk, rule):
+    """one record in, one status out: the record read is not repeated within a call of the genotype readers (no loop around it, no call
+    back into the reader), so no record is passed over on the strength of what another record contained"""
+    for kind, reader_call in (("vcf", "read_record"), ("bcf", "read_lazy_record")):
+        f = chk.fn("sfs_core::input::genotype::reader::%s::Reader::<R>::read_genotypes" % kind)
+        if f is None:
+            continue
+        rc = [(b, t) for b, t in f.calls() if callee_name(t["callee"]).split("::")[-1] == reader_call]
+        if len(rc) != 1:
+            chk.fail(rule, "%s::read_genotypes/one-record-per-call" % kind, f.loc(), "expected one %s call, found %d" % (reader_call, len(rc)))
+            continue
+        rb = rc[0][0]
+        in_cycle = f.reaches(rb, rb)
+        selfcalls = [callee_name(t_["callee"]) for b_, t_ in f.calls() if b_ != rb and (callee_name(t_["callee"]).split("::")[-1] in ("read_genotypes", reader_call))]
+        chk.ob(rule, "%s::read_genotypes/one-record-per-call" % kind, not in_cycle and not selfcalls, f.loc(rb),
+               "each call reads exactly one record and reports on that record (record read inside a loop: %s; further reads / recursive calls: %s)" % (in_cycle, selfcalls or "none"))
+
+
 def reader_outcomes(chk, rule):
     """a failure of the record reader is an error at every offset: in the two genotype readers `ReadStatus::Done` is constructed only for
     the zero-length successful read, `ReadStatus::Read` only under success of every fallible step, and nothing but `ReadStatus::Error`
@@ -1667,6 +1724,7 @@ def reader_outcomes(chk, rule):
                     bad.append("Done not under `Ok(0)` of the record read (success edge=%s, zero length=%s)" % (under_first_ok, zero))
         chk.ob(rule, "%s::read_genotypes/Done-only-on-Ok(0),nothing-but-Error-on-failure" % kind, not bad and n_done == 1 and bool(err_edges), f.loc(),
                "end of input is the zero-length successful read and nothing else; every failure becomes ReadStatus::Error (%s)" % (bad or "ok"))
+    one_record_per_call(chk, rule)
     # the site reader forwards the genotype reader's status: Done stays Done, Error stays Error
     rsite = chk.fn("sfs_core::input::site::reader::Reader::read_site")
     if rsite is not None:
